@@ -5,6 +5,7 @@ package rpc
 import (
 	"context"
 	"errors"
+	"time"
 
 	"github.com/gotd/td/bin"
 	"github.com/gotd/td/internal/verifrt"
@@ -57,6 +58,7 @@ type verifScn struct {
 	unknown  int64
 	cancel   [2]context.CancelFunc
 	canceled [2]bool
+	cancelErr [2]error
 	returned [2]bool
 	returns  [2]int
 	errs     [2]error
@@ -149,7 +151,7 @@ func (h *verifScn) inject(where string) {
 	if h.budget == 0 || h.depth > 1 {
 		return
 	}
-	a := verifrt.Fork("act@"+where, 9)
+	a := verifrt.Fork("act@"+where, 10)
 	if a == 0 {
 		return
 	}
@@ -172,6 +174,9 @@ func (h *verifScn) inject(where string) {
 		_ = h.e.NotifyResult(h.unknown, &bin.Buffer{Buf: []byte{0xff, 0, 0, 0}})
 	case 6:
 		h.canceled[0] = true
+		if h.cancelErr[0] == nil {
+			h.cancelErr[0] = context.Canceled
+		}
 		h.cancel[0]()
 		h.settle()
 	case 7:
@@ -180,6 +185,18 @@ func (h *verifScn) inject(where string) {
 			h.closedByScenario = true
 			go h.e.ForceClose()
 			h.settle()
+		}
+	case 9:
+		// the deadline of caller 0 passes (only at quiescent points: time moves when everybody rests)
+		if where == "idle" && !h.canceled[0] {
+			h.canceled[0] = true
+			h.cancelErr[0] = context.DeadlineExceeded
+			h.mainRunning = false
+			verifrt.Advance(2 * time.Hour)
+			h.mainRunning = true
+			h.mainSettle()
+		} else {
+			h.budget++
 		}
 	case 8:
 		for k := 0; k < 2; k++ {
@@ -217,7 +234,7 @@ func verifScenario(budget int, explore int) *verifScn {
 		}
 		h.sendOK[k]++
 		return nil
-	}, Options{DropHandler: func(req Request) error {
+	}, Options{RetryInterval: 100 * time.Hour, DropHandler: func(req Request) error {
 		k := h.which(req.MsgID)
 		h.drops[k]++
 		h.inject("drop" + string(rune('0'+k)))
@@ -230,6 +247,10 @@ func verifScenario(budget int, explore int) *verifScn {
 		k := k
 		h.outs[k] = &verifOut{h: h, k: k}
 		ctx, cancel := context.WithCancel(context.Background())
+		if k == 0 {
+			// caller 0 also has a deadline, far enough not to pass unless the scenario says so
+			ctx, cancel = context.WithTimeout(context.Background(), time.Hour)
+		}
 		h.cancel[k] = cancel
 		go func() {
 			err := h.e.Do(ctx, Request{MsgID: h.ids[k], SeqNo: int32(2*k + 1), Input: verifIn{}, Output: h.outs[k]})
